@@ -154,13 +154,17 @@ theorem nextStartN_sound {cfg : Cfg} {pv : PView} {view : View} (hx : Extends pv
   unfold nextStartN at e
   unfold Next
   split at e
-  · exact gateN_sound hx e
-  · split at e
-    · rename_i p hp
-      exact ⟨p, pollN_sound hx n _ _ hp, gateN_sound hx e⟩
-    · rename_i other hne
-      exact (hne _ e).elim
-  · cases e
+  · split at e <;> cases e
+  · rename_i hnf
+    refine ⟨hnf, ?_⟩
+    split at e
+    · exact gateN_sound hx e
+    · split at e
+      · rename_i p hp
+        exact ⟨p, pollN_sound hx n _ _ hp, gateN_sound hx e⟩
+      · rename_i other hne
+        exact (hne _ e).elim
+    · cases e
 
 theorem firstStartN_sound {cfg : Cfg} {pv : PView} {view : View} (hx : Extends pv view) {n : Nat}
     {spawn t' : Int} (e : firstStartN cfg pv n spawn = .start t') : First cfg view spawn t' :=
@@ -183,6 +187,7 @@ theorem wake_at_ge {cfg : Cfg} {r : Run} {w : Int} (h : wake cfg r = .at w) : r.
 theorem Next.ge_patched {cfg : Cfg} {view : View} {r : Run} {t' : Int} (h : Next cfg view r t') :
     r.patched ≤ t' := by
   unfold Next at h
+  replace h := h.2
   split at h
   · rename_i w hw
     have := wake_at_ge hw
@@ -197,6 +202,7 @@ theorem Next.ge_patched {cfg : Cfg} {view : View} {r : Run} {t' : Int} (h : Next
 theorem Next.idle_ok {cfg : Cfg} {view : View} {r : Run} {t' idle : Int} (hi : cfg.idle = some idle)
     (h : Next cfg view r t') : idle ≤ t' - view t' := by
   unfold Next at h
+  replace h := h.2
   split at h
   · exact Gate.idle_ok hi h
   · obtain ⟨p, _, hg⟩ := h
